@@ -992,7 +992,13 @@ func (s *session) finish(gen, confirm time.Duration, res *Result) {
 						}
 					}
 				case "Cancel":
-					return true
+					// (a server-side cancel while the reader still waits for the FIRST message is only acted
+					//  upon when that message - or InitTimeout - arrives: not decided by this check)
+					for _, e2 := range s.events {
+						if e2.E == "CSend" {
+							return true
+						}
+					}
 				case "InitFn":
 					if ev.M == "reject" {
 						return true
